@@ -41,13 +41,21 @@ def native_all(run, ns, seeds):
                 problems = []
                 try:
                     g = gens[key](n, np.random.default_rng(seed))
-                    vals = np.asarray(g.get_values())
+                    vals = np.array(g.get_values(), copy=True)
                     if g.number_of_players != n or vals.shape != (1 << n,) or vals.dtype != np.float64 or vals[0] != 0:
                         problems.append("shape/dtype/empty")
                     if not gp.is_superadditive(g):
                         problems.append("superadditive")
                     if key in GS.SAM_KEYS and not gp.is_monotone_decreasing(g):
                         problems.append("monotone")
+                    other = gens[key](n, np.random.default_rng(seed + 1))
+                    snap = np.asarray(other.get_values()).copy()
+                    if hasattr(g, "_graph_matrix"):
+                        g._graph_matrix[0, n - 1] += 5
+                    else:
+                        g.set_value(vals[3] + 5, P.mod("coalitions").Coalition(3))
+                    if other is g or not np.array_equal(np.asarray(other.get_values()), snap):
+                        problems.append("independent_of_other_results")
                     if not GS.ignores_rng(key):
                         g2 = gens[key](n, np.random.default_rng(seed))
                         if not np.array_equal(np.asarray(g2.get_values()), vals):
@@ -92,7 +100,8 @@ def main(run):
             todo.setdefault(f"graph_poiss_{lam}", (3,))
     for key, ns in sorted(todo.items()):
         for n in ns:
-            run.prove(f"{key}[n={n}]", GS.sc_generator, {"key": key, "n": n}, pkg=pkg, max_paths=5000,
+            second = not (key.startswith("xs") or key in ("graph_cycle", "oxs") or key.startswith("factory_cheerleader") or n > 4)
+            run.prove(f"{key}[n={n}]", GS.sc_generator, {"key": key, "n": n, "second": second}, pkg=pkg, max_paths=5000,
                       fallback=(lambda key=key, n=n: run.bounded_run(f"fallback.{key}[n={n}]", GS.sc_generator, {"key": key, "n": n},
                                                                      [{"seed": s} for s in range(200)], bound="200 seeds")))
     run.discharge()
